@@ -49,7 +49,8 @@ INFO = dict(
              "formula, the repaired statement is shortest_route_weight_is_distance",
              "quick tier samples masks / start-end pairs per small graph (every graph, every root of every candidate "
              "tree and every mask of every arborescence are always run); the thorough tier runs every combination"],
-    assumptions=["edge weights are positive integers (exact in float64)",
+    assumptions=["edge weights are positive integers (exact in float64) except for trees, whose edges also get "
+                 "negative and mixed-sign integer weights (oracle only: the Lean model carries natural-number weights)",
                  "a single-vertex Tree is outside menpo's Tree domain by design ('a tree cannot have isolated "
                  "vertices'); minimum spanning trees are only defined for connected graphs"],
     design_ref="DESIGN.md section 6, C14")
@@ -377,6 +378,11 @@ class Batch(object):
         self.expect = {}   # id -> (op, impl string or callable(reply) -> problem text | None, replay)
 
     def add(self, op, args, impl, replay):
+        if "-" in args:
+            # a negative edge weight (vertex ids are never negative): the Lean graph model carries natural-number
+            # weights, so such graphs are judged by the oracle on the real code only
+            self.skipped_negative = getattr(self, "skipped_negative", 0) + 1
+            return
         cid = "q%d" % len(self.lines)
         self.lines.append("%s %s %s" % (cid, op, args))
         self.expect[cid] = (op, impl, replay)
@@ -909,6 +915,9 @@ def random_tree(rng, nmax=40, weighted=False):
     rng.shuffle(perm)
     es = [(perm[rng.randrange(i)], perm[i]) for i in range(1, n)]
     ws = [rng.randint(1, 9) for _ in es] if weighted else None
+    if weighted and rng.random() < 0.5:
+        # negative and mixed-sign edge weights are legal (e.g. a maximum spanning tree of negated similarities)
+        ws = [w * rng.choice([-1, -1, 1]) for w in ws]
     return G.directed_(n, es, ws), perm[0]
 
 
@@ -1040,7 +1049,7 @@ def randoms(ctx, b, rng, count):
             v = rng.randrange(g.n)
             safely(ctx, check_shortest, b, g, obj, v, v)
         elif what == 3:    # trees: constructor, relations, masks; and non-trees
-            g, r = random_tree(rng, weighted=rng.random() < 0.3)
+            g, r = random_tree(rng, weighted=rng.random() < 0.4)
             if rng.random() < 0.25:   # spoil it
                 how = rng.choice(["extra", "flip", "root", "drop"])
                 w = dict(g.w)
